@@ -11,8 +11,8 @@ PROP = 'C14'
 LEVEL = 'fault_enumeration'
 RULE = ('enumeration of 13 injections (success; malformed bytes; bad envelope; unknown method; invalid argument; '
         'method_call listener raising Fault/non-Fault at app/service/method level; method_return_object listener raising; '
-        'function raising Fault/non-Fault; unserialisable return) x 9 protocol configurations x {ServerBase, WSGI} x 3 '
-        'listener layouts; non-trivial when the application-level trace contains created and closed; distinct by '
+        'function raising Fault/non-Fault; unserialisable return) x 9 protocol configurations x {ServerBase, WSGI} x 4 '
+        'listener layouts (application only; all levels; every listener registered twice; listeners inherited from a grandparent and two unrelated bases); non-trivial when the application-level trace contains created and closed; distinct by '
         '(protocol, driver, layout, injection, observed trace shape).')
 ASSUMPTIONS = [
     'relative order BETWEEN managers (application vs service vs method) is not stated by the property and not judged',
@@ -35,7 +35,8 @@ INJECTIONS = ['success', 'malformed', 'bad_envelope', 'unknown_method', 'invalid
               'call_listener_fault@app', 'call_listener_exc@app', 'call_listener_fault@service',
               'call_listener_exc@method', 'return_listener_fault@app', 'return_listener_exc@service',
               'function_fault', 'function_exc', 'unserialisable_return']
-LAYOUTS = ('app_only', 'all_levels', 'duplicates')
+LAYOUTS = ('app_only', 'all_levels', 'duplicates', 'diamond')
+INHERITED = ('service_base', 'service_grand', 'service_base2')
 
 
 def shards(tier, seed):
@@ -88,8 +89,24 @@ def build(kind, layout, injection, trace):
     multi = layout != 'app_only'
     dup = layout == 'duplicates'
 
-    class BaseSvc(Service):
-        pass
+    diamond = layout == 'diamond'
+    if diamond:
+        # listeners on the same events at a grandparent and at two unrelated bases: the subclass inherits all of them
+        class Grand(Service):
+            pass
+        attach(Grand.event_manager, 'service_grand', sub_events, 1, dup)
+
+        class BaseSvc(Grand):
+            pass
+
+        class Base2(Service):
+            pass
+        attach(Base2.event_manager, 'service_base2', sub_events, 1, dup)
+        bases = (BaseSvc, Base2)
+    else:
+        class BaseSvc(Service):
+            pass
+        bases = (BaseSvc,)
     if multi:
         attach(BaseSvc.event_manager, 'service_base', sub_events, 1, dup)
 
@@ -106,7 +123,7 @@ def build(kind, layout, injection, trace):
             return object()
         return n
 
-    class Svc(BaseSvc):
+    class Svc(*bases):
         f = rpc(Integer, _returns=Integer, _evmgr=method_mgr)(body)
 
         @rpc(Integer, _returns=Integer)
@@ -189,6 +206,8 @@ def judge(kind, driver, layout, injection, trace, fault_sent, escaped):
     levels = [('app', 2 if multi else 1)]
     if multi:
         levels += [('service_base', 1), ('service', 2), ('method', 2)]
+    if layout == 'diamond':
+        levels += [('service_grand', 1), ('service_base2', 1)]
     dispatched = bool(positions('app', 'call')) or any(positions(l, e) for l, _ in levels[1:] for e in SHORT.values())
     for level, nl in levels:
         for lid in range(nl):
@@ -220,7 +239,7 @@ def judge(kind, driver, layout, injection, trace, fault_sent, escaped):
                 continue
             raised_on = set(e[1] for e in seq if e[0] == 'raiser')
             inj_level = injection.partition('@')[2]
-            same_mgr = (level == inj_level) or (level == 'service_base' and inj_level == 'service')
+            same_mgr = (level == inj_level) or (level in INHERITED and inj_level == 'service')
             if 'return_object' in raised_on and not same_mgr:
                 pass    # another manager's listener aborted the event; inter-manager order is not judged
             elif bool(ro) != bool(user_return):
@@ -254,13 +273,13 @@ def judge(kind, driver, layout, injection, trace, fault_sent, escaped):
                 if bool(a) != bool(b) and not _raiser_between(seq, level, ev):
                     V.append(('listener_skipped', '%s: %s seen by listener0=%s listener1=%s' % (level, ev, bool(a), bool(b))))
     # inheritance: base-service listeners see what the service's own listeners see, and first
-    if multi:
+    for inh in (INHERITED if layout == 'diamond' else INHERITED[:1] if multi else ()):
         for ev in SHORT.values():
-            a, b = positions('service_base', ev, 0), positions('service', ev, 0)
+            a, b = positions(inh, ev, 0), positions('service', ev, 0)
             if bool(a) != bool(b) and not _raiser_between(seq, 'service', ev):
-                V.append(('service_inheritance', 'event %s: inherited listener saw=%s, own listener saw=%s' % (ev, bool(a), bool(b))))
+                V.append(('service_inheritance', 'event %s: listener inherited from %s saw=%s, own listener saw=%s' % (ev, inh, bool(a), bool(b))))
             if a and b and a[0] > b[0]:
-                V.append(('service_inheritance_order', 'event %s: own listener ran before inherited one' % ev))
+                V.append(('service_inheritance_order', 'event %s: own listener ran before the one inherited from %s' % (ev, inh)))
     if escaped is not None and inj != 'unserialisable_return':
         V.append(('escape:%s' % type(escaped).__name__, 'exception escaped the %s driver: %r' % (driver, escaped)))
     return V
